@@ -150,8 +150,16 @@ structure IcpTrace where
   margin : B
   ok : Bool
   svdBad : Bool
+  cond : B          -- min over the alignment problems of (s₂ + det·s₃)/s₁ : uniqueness margin of the optimum
 
 def svdBad (ps : Pairs B) : Bool := (svdContract (svdtfM ps) (jacobiSVD (svdtfM ps))).isSome
+
+/-- `(s₂ + det(U Vh)·s₃)/s₁` of the alignment problem (0 if `s₁ = 0`) -/
+def alignCond (ps : Pairs B) : B :=
+  let d := jacobiSVD (svdtfM ps)
+  if BigF.isZero d.S.x then BigF.zero else (d.S.y + detB (d.U.mul d.Vh) * d.S.z) / d.S.x
+
+def minB (a b : B) : B := if BigF.lt b a then b else a
 
 def icpTrace (align : Pairs B → SE3 B) (tgt : Cloud B) : Nat → IcpTrace → IcpTrace
   | 0, t => { t with sscd := t.sscd ++ [sscd nnFirst tgt t.cur] }
@@ -161,7 +169,8 @@ def icpTrace (align : Pairs B → SE3 B) (tgt : Cloud B) : Nat → IcpTrace → 
     let e := icpError nnFirst tgt t.cur
     let s := sscd nnFirst tgt t.cur
     let bad := t.svdBad || svdBad (matchNN nnFirst tgt t.cur)
-    icpTrace align tgt n ⟨icpStep align nnFirst tgt t.cur, t.errs ++ [e], t.sscd ++ [s], m, ok, bad⟩
+    let c := minB t.cond (alignCond (matchNN nnFirst tgt t.cur))
+    icpTrace align tgt n ⟨icpStep align nnFirst tgt t.cur, t.errs ++ [e], t.sscd ++ [s], m, ok, bad, c⟩
 
 end C17
 
@@ -238,7 +247,7 @@ def opsC17 : List (String × Handler) := [
         return fmt ([cost (Sim3Act X) ps] ++ (SO3matrix X.q).toList ++ [X.q.normSq])
       | _ => throw "arity"),
   -- c17.icp passes hasInit Ns Nt [t q] src(3Ns) tgt(3Nt)
-  --   → t(3) q(4) margin(1) errs(passes) sscd(passes+1) sscdResult(1)
+  --   → t(3) q(4) margin(1) cond(1) errs(passes) sscd(passes+1) sscdResult(1)
   ("c17.icp", fun ts => do
       match ts with
       | passes :: hi :: ns :: nt :: rest =>
@@ -254,7 +263,7 @@ def opsC17 : List (String × Handler) := [
         let tgt := points xs nt (o + 3 * ns)
         -- the aligner: model svdtf with the contract-checked stand-in; a contract failure poisons the run
         let align : Pairs B → SE3 B := fun ps => svdtf jacobiSVD detB atolB ps
-        let t0 : IcpTrace := ⟨icpStart init src, [], [], BigF.ofNat 1000000, true, false⟩
+        let t0 : IcpTrace := ⟨icpStart init src, [], [], BigF.ofNat 1000000, true, false, BigF.ofNat 2⟩
         let tr := icpTrace align tgt passes t0
         if !tr.ok then throw "contract:nn-not-argmin"
         -- re-check the SVD contract on every alignment problem of the run
@@ -263,7 +272,8 @@ def opsC17 : List (String × Handler) := [
         let X' := icp align nnFirst init passes src tgt
         if (X.toList.zip X'.toList).any (fun p => !(BigF.isZero (p.1 - p.2))) then throw "contract:icp-trace"
         let res := sscd nnFirst tgt (src.map (SE3Act X))
-        return fmt (X.toList ++ [tr.margin] ++ tr.errs ++ tr.sscd ++ [res])
+        let c := minB tr.cond (alignCond (src.zip tr.cur))
+        return fmt (X.toList ++ [tr.margin, c] ++ tr.errs ++ tr.sscd ++ [res])
       | _ => throw "arity")
 ]
 
